@@ -182,6 +182,19 @@ def _discharge(ob, axioms, use_cvc5, both, t0):
                 return ob
             except z3.Z3Exception:
                 pass
+    if not quantified:
+        from .engine import _nonlinear
+
+        if _nonlinear(goal) or any(_nonlinear(h) for h in ob.hyps):
+            # products / quotients of symbolic numbers: first the real relaxation with nlsat (pyvc/nra.py) - a proof when
+            # it answers unsat, nothing otherwise
+            from . import nra
+
+            if nra.prove(list(ob.hyps), goal, min(Z3_TIMEOUT_MS, 20000)):
+                ob.verdict = "proved"
+                ob.backend = "z3 nlsat (real relaxation)"
+                ob.time_s = time.time() - t0
+                return ob
     for budget in ((_BUDGET,) if _BUDGET else (Z3_TIMEOUT_MS, 4 * Z3_TIMEOUT_MS)):
         s = _solver(axioms, ob.hyps, budget)
         s.add(z3.Not(goal))
